@@ -288,6 +288,16 @@ example : gatedRun.lis.gateClosed = true ∧ gatedRun.lis.outstanding =
     [{ key := 1, vid := 101, reason := .invalidated }, { key := 2, vid := 102, reason := .invalidated }] ∧
     gatedRun.delivered = [] ∧ gatedRun.lis.queue.length ≤ cfgL.queueCap := by decide
 example : LisWF gatedRun.lis := by intro h; revert h; decide
+
+/-- the hypotheses of `no_drop_while_closed` hold for the second `remove` of that run -/
+def gatedMid : State Unit :=
+  (run cfgL nullOps () (State.fresh cfgL () 0)
+    [(.insert false 1 101 1, oo), (.insert false 2 102 1, oo), (.gate true, oo), (.remove 1, oo)]).1
+
+example : gatedMid.lis.gateClosed = true ∧ (gatedMid.lis.inFlight = none → gatedMid.lis.queue = []) ∧
+    gatedMid.lis.outstanding.length + (stepOp cfgL nullOps () oo gatedMid (.remove 2)).1.sent.length ≤ cfgL.queueCap + 1 ∧
+    (stepOp cfgL nullOps () oo gatedMid (.remove 2)).1.lis.outstanding =
+      gatedMid.lis.outstanding ++ (stepOp cfgL nullOps () oo gatedMid (.remove 2)).1.sent := by decide
 example : (stepOp cfgL nullOps () oo gatedRun (.gate false)).1.delivered =
     [{ key := 1, vid := 101, reason := .invalidated }, { key := 2, vid := 102, reason := .invalidated }] := by decide
 
